@@ -5,7 +5,7 @@ wt, sid, caught = sys.argv[1], sys.argv[2], json.loads(sys.argv[3])
 dst = os.path.join('/verif/seeded', sid)
 os.makedirs(dst, exist_ok=True)
 shutil.copy(os.path.join(wt, 'SEED_patch.diff'), os.path.join(dst, 'patch.diff'))
-for f in ('seeded_demo_test.go', 'skiplist/seeded_demo_test.go'):
+for f in ('seeded_demo_test.go', 'skiplist/seeded_demo_test.go', 'nodetable/seeded_demo_test.go'):
     p = os.path.join(wt, f)
     if os.path.exists(p):
         shutil.copy(p, os.path.join(dst, 'demo_' + f.replace('/', '_')))
